@@ -117,10 +117,12 @@ def run(ck, facts, tier):
     sn = need_body(ck, facts, R, RC + "solve_new_subgoal")
     sg = need_body(ck, facts, R, RC + "solve_goal")
     if sn and sg and src_ok:
+        from kit import let_bound
+        ans = let_bound(sn.thir, lambda i: has_call(i, "solve_iteration"))     # the iteration's answer, whatever it is called
         stores = [n for n in walk(sn.thir) if n.get("k") == "assign" and any(x.get("k") == "field" and x["n"] == "solution" for x in walk(n["l"]))
-                  and "current_answer" in expr_vars(n["r"])]
-        stores += [c for c in calls(sn.thir, "mem::replace") if "current_answer" in expr_vars(c)]
-        from_iter = any(st.get("k") == "let" and st["pat"].get("n") == "current_answer" and has_call(st["init"], "solve_iteration") for st in walk(sn.thir))
+                  and expr_vars(n["r"]) & ans]
+        stores += [c for c in calls(sn.thir, "mem::replace") if expr_vars(c) & ans]
+        from_iter = bool(ans)
         if not (stores and from_iter):
             ck.violation(R, "missing-anchor:flow:solve_new_subgoal", sn.where(), "could not follow the iteration result into the search graph; re-anchor")
         else:
@@ -211,7 +213,7 @@ def run(ck, facts, tier):
                     ck.ok(R, "make_solution:is_quantum_exceeded-branch", str(sorted(sol)))
                 else:
                     ck.violation(R, "make_solution:is_quantum_exceeded-branch", mk.where(x.get("ln")), "found %s" % sorted(sol))
-        ck.floor(R, "interrupted-paths", n, 3)
+        ck.floor(R, "interrupted-paths", n, 2)
 
     R = "C11.SOLVE-ERRORS-PROPAGATE"
     ck.rule(R, "K6-style error discipline: inside the recursive solver the result of proving / refuting / solving a (sub)goal "
@@ -235,6 +237,6 @@ def run(ck, facts, tier):
                     ck.violation(R, "%s:unwrap-of-%s" % (short(key), str(inner.get("fn", "")).split("::")[-1]), b.where(c.get("ln")),
                                  "the result of %s is unwrapped: it can be Err(NoSolution) on a re-proof after an interrupted first attempt, "
                                  "and the solver panics instead of answering" % str(inner.get("fn", "")).split("::")[-1])
-    ck.floor(R, "calls-that-solve-a-goal", n_calls, 6)
+    ck.floor(R, "calls-that-solve-a-goal", n_calls, 4)
     if not [v for v in ck.violations if v["rule"] == R]:
         ck.ok(R, "recursive-solver:no-unwrap-on-solve-results", "%d solving call(s), none unwrapped" % n_calls)
